@@ -33,7 +33,7 @@ func oopPrims() []string {
 	for _, i := range ints {
 		out = append(out, "f:"+h.F64Hex(i))
 	}
-	for _, s := range []string{"", "a", "10", "9", "1", "abc", " 2 ", "true", "NaN"} {
+	for _, s := range []string{"", "a", "10", "9", "1", "abc", " 2 ", "true", "NaN", "\u00852", "2\ufeff", "\u180e", "\u0085"} {
 		out = append(out, h.BytesTok(s))
 	}
 	return out
